@@ -25,7 +25,7 @@ ASSUMPTIONS = [
     "family membership is asserted there",
     "ValueError for unknown ids / undecodable values is documented behaviour and not a network failure",
 ]
-MUST = ["requests_after_an_event_loop_change", "failure_count_vs_wire_log", "cfc_checked_through_api", "damaged_frames_not_a_refusal", "os_error_on_send", "os_error_on_receive", "idle_error_keepalive", "tcp_connect_failure", "cfc_checked",
+MUST = ["answers_cut_off_at_every_length", "requests_after_an_event_loop_change", "failure_count_vs_wire_log", "cfc_checked_through_api", "damaged_frames_not_a_refusal", "os_error_on_send", "os_error_on_receive", "idle_error_keepalive", "tcp_connect_failure", "cfc_checked",
         "cfc_after_rejection", "cfc_checked_overlapping_calls", "entry_points_under_fault", "settings_read_with_refused_registers", "api_calls_under_fault", "ident_payloads", "discover_payloads", "failed_exception_seen",
         "rejected_exception_seen"]
 EXHAUSTIVE = {"quick": False, "thorough": False}
@@ -550,6 +550,12 @@ def run_shard(spec):
         T, R = 1, spec["R"]
         for script in itertools.product(alpha_for(T), repeat=R + 1):
             run_a(scenario_a(spec["transport"], spec["ka"], T, R, list(script), spec["entry"]), part)
+        # the answer cut off after k bytes, for every k (a read answer, a write echo, the raw command's answer): too short to be judged is a failed
+        # attempt like any other damaged answer
+        for k in range(1, 16):
+            for tail in ([], ["now"]):
+                run_a(scenario_a(spec["transport"], spec["ka"], T, R, ([["frag1", k]] * (R + 1) + tail)[:R + 1 + len(tail)], spec["entry"]), part)
+                part.count("answers_cut_off_at_every_length")
     elif p == "Aconnect":
         probe_failures_part(part)
         loop_change_part(part)
